@@ -271,6 +271,49 @@ func checkNameSpans(fd *descriptorpb.FileDescriptorProto, text string) string {
 			}
 		}
 	}
+	// imports: [3,i] covers the statement that names dependency i; [10,k] / [11,k] cover the `public` / `weak`
+	// keyword of the statement of dependency public_dependency[k] / weak_dependency[k]
+	within := func(inner, outer []int32) bool {
+		il, ic := inner[0], inner[1]
+		ol, oc := outer[0], outer[1]
+		oel, oec := outer[0], outer[2]
+		if len(outer) == 4 {
+			oel, oec = outer[2], outer[3]
+		}
+		return (il > ol || (il == ol && ic >= oc)) && (il < oel || (il == oel && ic <= oec))
+	}
+	for i, dep := range fd.Dependency {
+		if l := one([]int32{3, int32(i)}, "import "+dep); l != nil {
+			if got, ok := spanText(lines, l.Span); !ok || !strings.Contains(got, dep) || !strings.HasPrefix(strings.TrimSpace(got), "import") {
+				fail("import %q: location [3,%d] covers %q", dep, i, got)
+			}
+		}
+	}
+	modifier := func(field int32, word string, idx []int32) {
+		for k, di := range idx {
+			l := one([]int32{field, int32(k)}, word+" import")
+			if l == nil {
+				continue
+			}
+			if got, ok := spanText(lines, l.Span); !ok || got != word {
+				fail("%s import #%d: location [%d,%d] covers %q, not the keyword", word, k, field, k, got)
+				continue
+			}
+			if int(di) >= len(fd.Dependency) {
+				fail("%s_dependency[%d] = %d is out of range", word, k, di)
+				continue
+			}
+			stmt := byPath[pathStr([]int32{3, di})]
+			if len(stmt) == 0 || !within(l.Span, stmt[0].Span) {
+				fail("%s import #%d: location [%d,%d] is not inside the import statement of dependency %d (%s)", word, k, field, k, di, fd.Dependency[di])
+			}
+		}
+		if extra := byPath[pathStr([]int32{field, int32(len(idx))})]; len(extra) > 0 {
+			fail("location [%d,%d] exists but the file has only %d %s imports", field, len(idx), len(idx), word)
+		}
+	}
+	modifier(10, "public", fd.PublicDependency)
+	modifier(11, "weak", fd.WeakDependency)
 	for i, m := range fd.MessageType {
 		msg([]int32{4, int32(i)}, m)
 	}
@@ -467,6 +510,27 @@ func TestC03(t *testing.T) {
 			frng := rng.Fork(name)
 			text := src[name]
 			// a third of the files get a last declaration that ends in ';' so that the end-of-file placement exists
+			if frng.Chance(0.3) {
+				// a few more imports, plain / public / weak in random order (unused imports are only warnings)
+				wk := append([]string(nil), gen.WellKnownImports...)
+				vlib.Shuffle(frng, wk)
+				var add []string
+				for _, f := range wk[:frng.Range(1, 4)] {
+					if strings.Contains(text, `"`+f+`"`) || f == "google/protobuf/empty.proto" {
+						continue
+					}
+					add = append(add, "import "+[]string{"", "public ", "weak ", "public ", "weak "}[frng.Intn(5)]+`"`+f+`";`)
+				}
+				ls := strings.Split(text, "\n")
+				for li, l := range ls {
+					if strings.HasPrefix(l, "syntax") || strings.HasPrefix(l, "edition") {
+						ls = append(ls[:li+1], append(add, ls[li+1:]...)...)
+						break
+					}
+				}
+				text = strings.Join(ls, "\n")
+				r.Class("imports with modifiers injected")
+			}
 			eofDecl := false
 			if frng.Chance(0.33) && !strings.Contains(text, "google/protobuf/empty.proto") {
 				text = strings.TrimRight(text, "\n") + "\nimport \"google/protobuf/empty.proto\";\n"
@@ -598,6 +662,13 @@ func injectDocumentedComments(rng *vlib.RNG, text string, base *descriptorpb.Sou
 			k := rng.Range(1, 2)
 			for j := 0; j < k; j++ {
 				c := id()
+				if rng.Chance(0.35) {
+					// a free-standing block comment (a "banner")
+					p.before = append(p.before, indent+"/* "+c+" */", "")
+					loc.LeadingDetachedComments = append(loc.LeadingDetachedComments, " "+c+" ")
+					n++
+					continue
+				}
 				p.before = append(p.before, indent+"// "+c)
 				if rng.Chance(0.3) {
 					c2 := id()
